@@ -305,6 +305,15 @@ fn answer_inner(req: &str) -> String {
                 fmt_opt(guarded(|| rank_str(h.hand_rank()))),
             ])
         }
+        ("evh", ws) if (5..=7).contains(&ws.len()) => {
+            let Some(w) = u32s(ws) else { return "bad-request".into() };
+            match H::mk(&w).unwrap() {
+                H::T5(f) => value_hand(&f),
+                H::T6(f) => value_hand(&f),
+                H::T7(f) => value_hand(&f),
+                _ => unreachable!(),
+            }
+        }
         ("ckc", [w]) if *w < (1 << 32) => <BinaryCard as BC64>::from_ckc(*w as u32).to_string(),
         ("evv", ws) if (5..=7).contains(&ws.len()) => {
             let Some(w) = u32s(ws) else { return "bad-request".into() };
@@ -667,6 +676,25 @@ pub fn c04_alphabet() -> Vec<u32> {
     v
 }
 
+/// words whose fields are each taken from a real card but do not belong together (rank bit of one card with
+/// the rank number / prime / suit of another): every field test passes, the word is not a card
+pub fn hybrid_words() -> Vec<u32> {
+    let deck = layout_deck();
+    let mut v = Vec::new();
+    for &a in &deck {
+        for &b in &deck {
+            if a == b { continue; }
+            for mask in [0xFFFF_0000u32, 0xFFFF_F000, 0xFFFF_FF00, 0xFFFF_0FFF, 0xFFFF_F0FF, 0xFFFF_FFC0] {
+                let w = (a & mask) | (b & !mask);
+                if !deck.contains(&w) { v.push(w); }
+            }
+        }
+    }
+    v.sort_unstable();
+    v.dedup();
+    v
+}
+
 /// the hands of the C04 stream (sizes 2..7): planted duplicates at every slot pair, a bad word at every
 /// slot, arrangements over the alphabet, arbitrary words
 pub fn c04_hands(rng: &mut Rng, thorough: bool) -> Vec<(String, Vec<u32>)> {
@@ -712,6 +740,17 @@ pub fn c04_hands(rng: &mut Rng, thorough: bool) -> Vec<(String, Vec<u32>)> {
             let h: Vec<u32> = (0..n).map(|_| match rng.below(3) { 0 => rng.next() as u32, 1 => alpha[rng.below(52) as usize], _ => (rng.next() as u32) & 0x1FFF_FF3F }).collect();
             out.push(("arbitrary-words".into(), h));
         }
+    }
+    // cross-field hybrids at the first, a middle and the last slot of a valid hand of every size
+    let hyb = hybrid_words();
+    for (k, &w) in hyb.iter().enumerate() {
+        if !thorough && k % 7 != 0 { continue; }
+        let n = 2 + k % 6;
+        let mut idx: Vec<usize> = (0..52).collect();
+        rng.shuffle(&mut idx);
+        let mut h: Vec<u32> = idx[..n].iter().map(|i| deck[*i]).collect();
+        h[[0, n / 2, n - 1][k % 3]] = w;
+        out.push(("cross-field-hybrid".into(), h));
     }
     // EVERY arrangement (with repetition) of a mini-deck of two ranks x four suits for n = 2..5 (and of one
     // rank x four suits + a king for n = 6): duplicates with same-rank, same-suit and unrelated cards between them
@@ -1064,7 +1103,22 @@ pub fn cases(prop: &str, thorough: bool, seed: u64, c: &mut Cases) {
                 c.emit("find", &format!("find {k}"));
             }
         }
-        "C02" | "C03" | "C09" => cases_sixseven(c, &mut rng, thorough),
+        "C03" => {
+            cases_sixseven(c, &mut rng, thorough);
+            let sym = deck_blank();
+            for k in 0..(if thorough { 60_000 } else { 6_000 }) {
+                // five slots: distinct real cards in a seeded order, or card-or-blank with repeats
+                let ws: Vec<u32> = if k % 2 == 0 {
+                    let mut idx: Vec<usize> = (0..52).collect();
+                    rng.shuffle(&mut idx);
+                    idx[..5].iter().map(|i| sym[*i]).collect()
+                } else {
+                    (0..5).map(|_| if rng.below(4) == 0 { 0 } else { sym[rng.below(53) as usize] }).collect()
+                };
+                c.emit("evh5/five-slot input is reported unchanged", &format!("evh {}", join(&ws)));
+            }
+        }
+        "C02" | "C09" => cases_sixseven(c, &mut rng, thorough),
         "C12" => {
             for (kind, t) in c12_strings(&mut rng, thorough) {
                 c.emit(&format!("idx/{kind}"), &format!("idx {}", cps(&t)));
@@ -2297,6 +2351,38 @@ fn sweep_c06() -> Sweep {
     });
     for p in parts { s.merge(p); }
     s.count("five-card hands", 2_598_960);
+    // the reported rank carries the value of unvalidated ranking for EVERY five-slot multiset over cards + blank
+    // (duplicates included), and for seeded six/seven-slot ones
+    let sym = deck_blank();
+    let parts: Vec<Sweep> = par_ranges(53, 53, |lo, hi| {
+        let mut p = Sweep::default();
+        let mut rng = Rng::new(lo ^ 0x6C06);
+        for a in lo as usize..hi as usize {
+            for b in a..53 { for c in b..53 { for d in c..53 { for e in d..53 {
+                let h = Five::from([sym[a], sym[b], sym[c], sym[d], sym[e]]);
+                p.evaluations += 1;
+                let r = guarded(|| (h.hand_rank(), h.hand_rank_value(), h.hand_rank_validated(), h.hand_rank_value_validated()));
+                match r {
+                    Some((hr, v, hrv, vv)) if hr == HandRank::from(v) && hrv == HandRank::from(vv) => {}
+                    other => p.fail("the reported rank is not the conversion of the reported value", &join(h.to_arr()), "hand_rank() == HandRank::from(hand_rank_value())", &format!("{other:?}")),
+                }
+            } } } }
+            for _ in 0..2_000 {
+                let ws: Vec<u32> = (0..7).map(|_| sym[rng.below(53) as usize]).collect();
+                let h = Seven::from([ws[0], ws[1], ws[2], ws[3], ws[4], ws[5], ws[6]]);
+                let g = Six::from([ws[0], ws[1], ws[2], ws[3], ws[4], ws[5]]);
+                p.evaluations += 2;
+                let r = guarded(|| (h.hand_rank() == HandRank::from(h.hand_rank_value()), g.hand_rank() == HandRank::from(g.hand_rank_value()),
+                    h.hand_rank_validated() == HandRank::from(h.hand_rank_value_validated()), g.hand_rank_validated() == HandRank::from(g.hand_rank_value_validated())));
+                if r != Some((true, true, true, true)) {
+                    p.fail("the reported rank of a six/seven-slot hand is not the conversion of the reported value", &join(&ws), "equal", &format!("{r:?}"));
+                }
+            }
+        }
+        p
+    });
+    for p in parts { s.merge(p); }
+    s.count("five-slot multisets over cards + blank (rank carries value)", 4_187_106);
     s.rule = "all 65,536 values: name, class, value, is_invalid, consistency and contiguity against the category / class names written by the Lean specification for each strength ordinal; all 2,598,960 five-card hands (one rotated slot order each): the reported rank's names against the hand's own class; non-trivial = value in 1..=7462 or any hand".into();
     s.sample(format!("from(1) = {:?}", HandRank::from(1)));
     s.sample(format!("from(183) = {:?}", HandRank::from(183)));
@@ -2474,6 +2560,29 @@ fn sweep_sixseven(prop: &str, seed: u64, thorough: bool) -> Sweep {
         }
     };
     let mut total = Sweep { exhaustive: thorough, ..Default::default() };
+    if prop == "C03" {
+        // the identity clause: a five-slot input is reported unchanged (arrays compared, not `Five == Five`)
+        let sym = deck_blank();
+        let parts: Vec<Sweep> = par_ranges(53, 53, |lo, hi| {
+            let mut s = Sweep::default();
+            let mut rng = Rng::new(seed ^ (lo << 8) ^ 0x5C03);
+            for a in lo as usize..hi as usize {
+                for b in a..53 { for c in b..53 { for d in c..53 { for e in d..53 {
+                    let mut arr = [sym[a], sym[b], sym[c], sym[d], sym[e]];
+                    rng.shuffle(&mut arr);
+                    s.evaluations += 1;
+                    let r = guarded(|| { let (v, h) = Five::from(arr).hand_rank_value_and_hand(); (v, h.to_arr(), [h.first(), h.second(), h.third(), h.forth(), h.fifth()], Five::from(arr).hand_rank_value()) });
+                    match r {
+                        Some((v, h, acc, v2)) if h == arr && acc == arr && v == v2 => {}
+                        other => s.fail("a five-slot input is not reported unchanged (value, to_arr, accessors, hand_rank_value)", &join(arr), &join(arr), &format!("{other:?}")),
+                    }
+                } } } }
+            }
+            s
+        });
+        for p in parts { total.merge(p); }
+        total.count("five-slot multisets over cards + blank in a seeded order (identity clause)", 4_187_106);
+    }
     // all six-card hands: a quarter in deck order, a quarter reversed, half in a per-hand seeded order
     // slot orders a caller is likely to use (and a shortcut is likely to key on): deck order, reversed deck
     // order, descending and ascending by card word (i.e. a sorted hand), and seeded shuffles
@@ -2588,6 +2697,21 @@ fn sweep_sixseven(prop: &str, seed: u64, thorough: bool) -> Sweep {
             // half of the seeded hands are put into one of the "natural" orders, half stay shuffled
             if k % 2 == 1 { ordered(&mut h, &mut rng); }
             check(&h, &mut s);
+            if k % 8 == 0 {
+                // a "twin" ranked right after: two cards trade suits (same ranks, same multiset of suits, same XOR /
+                // sum / OR of the words) - a result remembered from the previous call under such a key shows here;
+                // then the first hand again
+                let (i, j) = (rng.below(n as u64) as usize, rng.below(n as u64) as usize);
+                let (ci, cj) = (h[i], h[j]);
+                let (ti, tj) = ((cj / 13) * 13 + ci % 13, (ci / 13) * 13 + cj % 13);
+                if ci / 13 != cj / 13 && ci % 13 != cj % 13 && !h.contains(&ti) && !h.contains(&tj) {
+                    let mut t = h.clone();
+                    t[i] = ti;
+                    t[j] = tj;
+                    check(&t, &mut s);
+                    check(&h, &mut s);
+                }
+            }
         }
         s
     });
@@ -2624,10 +2748,11 @@ fn sweep_c04(seed: u64, thorough: bool) -> Sweep {
             s.fail("is_valid / contain_blank / is_corrupt differ from '52-card words, pairwise distinct'", &join(&h), &format!("{want:?}"), &format!("{got:?}"));
         }
         if h.len() >= 5 {
+            #[allow(clippy::needless_borrow)]
             let vv = guarded(|| match hh {
-                H::T5(f) => (f.hand_rank_value_validated(), ckc_rs::evaluate::five_cards(f.to_arr()), f.hand_rank_validated().value),
-                H::T6(f) => (f.hand_rank_value_validated(), f.hand_rank_value_validated(), f.hand_rank_validated().value),
-                H::T7(f) => (f.hand_rank_value_validated(), f.hand_rank_value_validated(), f.hand_rank_validated().value),
+                H::T5(f) => (f.hand_rank_value_validated(), ckc_rs::evaluate::five_cards(f.to_arr()), (&&f).hand_rank_validated().value),
+                H::T6(f) => (f.hand_rank_value_validated(), (&&f).hand_rank_value_validated(), f.hand_rank_validated().value),
+                H::T7(f) => (f.hand_rank_value_validated(), (&&f).hand_rank_value_validated(), f.hand_rank_validated().value),
                 _ => unreachable!(),
             });
             match vv {
@@ -2653,13 +2778,32 @@ fn sweep_c04(seed: u64, thorough: bool) -> Sweep {
             }
         }
     }
+    // every cross-field hybrid word in every slot of a hand of every size: corrupt, not valid, validated rank 0
+    let hyb = hybrid_words();
+    for &w in &hyb {
+        for n in 2..=7usize {
+            for slot in [0, n - 1] {
+                let mut h: Vec<u32> = (0..n).map(|i| deck[(i * 11 + 3) % 52]).collect();
+                h[slot] = w;
+                s.evaluations += 1;
+                let hh = H::mk(&h).unwrap();
+                let r = guarded(|| (hh.is_corrupt(), hh.is_valid(), match hh { H::T5(f) => f.hand_rank_value_validated(), H::T6(f) => f.hand_rank_value_validated(), H::T7(f) => f.hand_rank_value_validated(), _ => 0 }));
+                if r != Some((true, false, 0)) {
+                    s.fail("a word assembled from the fields of two different cards is accepted (is_corrupt, is_valid, validated value)", &join(&h), "(true, false, 0)", &format!("{r:?}"));
+                }
+            }
+        }
+    }
+    s.count("cross-field hybrid words x sizes x 2 slots", (hyb.len() * 12) as u64);
     // valid hands at scale: validated ranking must equal unvalidated ranking (no oracle needed) and be non-zero
     let valid_check = |ws: &[u32], p: &mut Sweep| {
         p.evaluations += 1;
+        // the fourth component goes through a `&&T` receiver (what closures in iterator adaptors get)
+        #[allow(clippy::needless_borrow)]
         let r = guarded(|| match H::mk(ws).unwrap() {
-            H::T5(f) => (f.is_valid(), f.hand_rank_value_validated(), f.hand_rank_value(), ckc_rs::evaluate::five_cards(f.to_arr()), f.hand_rank_validated().value),
-            H::T6(f) => (f.is_valid(), f.hand_rank_value_validated(), f.hand_rank_value(), f.hand_rank_value_validated(), f.hand_rank_validated().value),
-            H::T7(f) => (f.is_valid(), f.hand_rank_value_validated(), f.hand_rank_value(), f.hand_rank_value_validated(), f.hand_rank_validated().value),
+            H::T5(f) => (f.is_valid(), f.hand_rank_value_validated(), f.hand_rank_value(), ckc_rs::evaluate::five_cards(f.to_arr()), (&&f).hand_rank_validated().value),
+            H::T6(f) => (f.is_valid(), f.hand_rank_value_validated(), f.hand_rank_value(), (&&f).hand_rank_value_validated(), (&&f).hand_rank_validated().value),
+            H::T7(f) => (f.is_valid(), f.hand_rank_value_validated(), f.hand_rank_value(), (&&f).hand_rank_value_validated(), (&&f).hand_rank_validated().value),
             _ => unreachable!(),
         });
         match r {
